@@ -1587,6 +1587,38 @@ func (e *wireExec) reencodeStep(s *XStep, w *wireTok, env *envelope) {
 				add("permuted map keys", "map", root)
 			}
 		}
+	case "lex_all":
+		// EVERY map of the token with its keys in another deterministic order at once: plain
+		// bytewise order of the key text (not length-first), or that order reversed
+		changed := false
+		root.Walk(func(c *CB) {
+			if c.Major != 5 || len(c.Kids) < 4 {
+				return
+			}
+			n := len(c.Kids) / 2
+			idx := make([]int, n)
+			for i := range idx {
+				idx[i] = i
+			}
+			sort.SliceStable(idx, func(a, b int) bool {
+				ka, kb := string(c.Kids[2*idx[a]].Data), string(c.Kids[2*idx[b]].Data)
+				if s.Val%2 == 1 {
+					return ka > kb
+				}
+				return ka < kb
+			})
+			var kids []*CB
+			for _, i := range idx {
+				kids = append(kids, c.Kids[2*i], c.Kids[2*i+1])
+				if i != len(kids)/2-1 {
+					changed = true
+				}
+			}
+			c.Kids = kids
+		})
+		if changed {
+			add("permuted map keys", "every map", root)
+		}
 	case "float_width":
 		if it := pick(func(c *CB) bool { return c.Major == 7 && c.Float == 64 }); it != nil {
 			f := math.Float64frombits(it.Arg)
